@@ -515,6 +515,8 @@ func (s *state) walkUseNode(node *parse.UseNode) error {
 	if err != nil {
 		return err
 	}
+	// The imported blocks may call the used template's own macros through _self.
+	s.registerMacros(tree.Root().BodyNode)
 	// Every alias refers to a block of the used template as that template
 	// names it, whatever the other aliases of the statement rename.
 	defined := tree.Blocks()
